@@ -10,6 +10,7 @@ import (
 	"path/filepath"
 	"runtime"
 	"sort"
+	"strings"
 	"syscall"
 	"time"
 )
@@ -123,25 +124,45 @@ func Exit(code int) {
 	os.Exit(code)
 }
 
+// simulated environment: a few common variables exist and their values differ
+// from one logical epoch to the next, so that a value leaking into the output
+// is seen as a difference between two runs, deterministically.
+var simEnvKeys = []string{"HOME", "HOSTNAME", "LANG", "LOGNAME", "SHELL", "TERM", "TZ", "USER"}
+
+func simEnv(key string) (string, bool) {
+	for _, k := range simEnvKeys {
+		if k == key {
+			return fmt.Sprintf("%s-%d", strings.ToLower(key), W.Epoch%100003), true
+		}
+	}
+	return "", false
+}
+
 func Getenv(key string) string {
 	if W == nil {
 		return os.Getenv(key)
 	}
-	return ""
+	v, _ := simEnv(key)
+	return v
 }
 
 func LookupEnv(key string) (string, bool) {
 	if W == nil {
 		return os.LookupEnv(key)
 	}
-	return "", false
+	return simEnv(key)
 }
 
 func Environ() []string {
 	if W == nil {
 		return os.Environ()
 	}
-	return []string{}
+	out := []string{}
+	for _, k := range simEnvKeys {
+		v, _ := simEnv(k)
+		out = append(out, k+"="+v)
+	}
+	return out
 }
 
 func Getpid() int {
@@ -169,7 +190,8 @@ func UserHomeDir() (string, error) {
 	if W == nil {
 		return os.UserHomeDir()
 	}
-	return "/home/sim", nil
+	v, _ := simEnv("HOME")
+	return "/home/" + v, nil
 }
 
 func Rename(oldpath, newpath string) error {
